@@ -186,7 +186,7 @@ Proof.
   unfold okword in Hok. apply andb_true_iff in Hok as [_ Hform].
   unfold parse_line, addr_of, classify. change (tx "unix:") with UNIXP.
   destruct (prefixb UNIXP w) eqn:Hu.
-  - destruct (skipn 5 w) eqn:Hs; [discriminate Hform|reflexivity].
+  - rewrite (first_word_id w Hsp). destruct (skipn 5 w) eqn:Hs; [discriminate Hform|reflexivity].
   - unfold has_char. rewrite Hsp.
     destruct (split_at COLON w) as [[h p]|] eqn:Hc.
     + rewrite (split_at_some_memb _ _ _ _ Hc).
@@ -202,24 +202,22 @@ Proof.
       * rewrite Hle. reflexivity.
 Qed.
 
-Lemma parse_line_full l : okline0 l = true -> (prefixb UNIXP l && has_char SP l) = false ->
-  parse_line l = parse_line (first_word l).
+Lemma parse_line_full l : okline0 l = true -> parse_line l = parse_line (first_word l).
 Proof.
-  intros Hok Hf. destruct (okline0_parts l Hok) as (_ & _ & Hlead).
-  destruct (has_char SP l) eqn:Hsp.
-  - rewrite andb_true_r in Hf.
-    assert (prefixb UNIXP (first_word l) = false) as Hfw.
-    { rewrite (first_word_nolead l Hlead), prefixb_until_sp; [exact Hf|reflexivity]. }
-    unfold parse_line. change (tx "unix:") with UNIXP. rewrite Hf, Hfw, Hsp.
-    replace (has_char SP (first_word l)) with false by (symmetry; apply first_word_no_sp).
-    reflexivity.
-  - unfold has_char in Hsp. now rewrite (first_word_id l Hsp).
+  intros Hok. destruct (okline0_parts l Hok) as (_ & _ & Hlead).
+  assert (prefixb UNIXP (first_word l) = prefixb UNIXP l) as Hfw.
+  { rewrite (first_word_nolead l Hlead). now apply prefixb_until_sp. }
+  unfold parse_line. change (tx "unix:") with UNIXP. rewrite Hfw.
+  destruct (prefixb UNIXP l); [now rewrite first_word_idem|].
+  replace (has_char SP (first_word l)) with false by (symmetry; apply first_word_no_sp).
+  destruct (has_char SP l) eqn:Hsp; [reflexivity|].
+  unfold has_char in Hsp. now rewrite (first_word_id l Hsp).
 Qed.
 
-Lemma parse_line_spec l : okline0 l = true -> (prefixb UNIXP l && has_char SP l) = false ->
-  first_word l <> ZERO -> parse_line l = addr_of (first_word l).
+Lemma parse_line_spec l : okline0 l = true -> first_word l <> ZERO ->
+  parse_line l = addr_of (first_word l).
 Proof.
-  intros Hok Hf Hz. rewrite (parse_line_full l Hok Hf).
+  intros Hok Hz. rewrite (parse_line_full l Hok).
   destruct (okline0_parts l Hok) as (_ & Hw & _). now apply parse_word_spec.
 Qed.
 
@@ -439,33 +437,16 @@ Proof.
     unfold listeners, entries. cbn [sp]. now apply relisted_prefix with (new := new_line o).
 Qed.
 
-(* ------------------------------------------------------------------ flags vs the two oracles *)
-Lemma orl_false a b : List.length a = 4%nat -> List.length b = 4%nat ->
-  existsb (fun x => x) (orl a b) = false ->
-  existsb (fun x => x) a = false /\ existsb (fun x => x) b = false.
-Proof.
-  destruct a as [|a1 [|a2 [|a3 [|a4 [|]]]]]; try discriminate.
-  destruct b as [|b1 [|b2 [|b3 [|b4 [|]]]]]; try discriminate.
-  intros _ _. cbn.
-  destruct a1, a2, a3, a4, b1, b2, b3, b4; cbn; intros H; try discriminate; auto.
-Qed.
-
-Lemma flags_length ops : forall t rej obs, List.length (flags t rej ops obs) = 4%nat.
-Proof.
-  induction ops as [|o ops IH]; intros t rej obs; [reflexivity|].
-  destruct obs as [|b obs]; [reflexivity|]. cbn [flags].
-  unfold orl. rewrite map_length, combine_length, IH. reflexivity.
-Qed.
-
+(* ------------------------------------------------------------------ the flag vs the two oracles *)
 Lemma known_unflagged ops : forall t rej obs,
-  existsb (fun x => x) (flags t rej ops obs) = false ->
+  flagged_from t rej ops obs = false ->
   oracle_known t rej ops obs = oracle_hist t ops obs.
 Proof.
   induction ops as [|o ops IH]; intros t rej obs H.
   - destruct obs; reflexivity.
   - destruct obs as [|b obs]; [reflexivity|].
-    cbn [flags oracle_known oracle_hist] in *.
-    apply orl_false in H as [H1 H2]; [|reflexivity|apply flags_length].
+    cbn [flagged_from oracle_known oracle_hist] in *.
+    apply orb_false_iff in H as [H1 H2].
     rewrite H1, orb_false_r. now rewrite IH.
 Qed.
 
@@ -570,22 +551,20 @@ Qed.
 (* ------------------------------------------------------------------ _create_socks_endpoint *)
 Definition tor_ok (t : tor) : Prop :=
   (forall e, In e (entries t) -> okline0 e = true) /\
-  (forall l, sp t = RVals l -> is_default l = false).
+  (forall l, sp t = RVals l -> is_default l = false) /\
+  (sp t = RDefault -> forall d, In d (dflt t) -> d <> DEFAULTW).
 Definition dflt_le1 (t : tor) : Prop := (List.length (dflt t) <= 1)%nat.
-Definition f1c (t : tor) : bool := match sp t with RDefault => isnil (dflt t) | RVals _ => false end.
 
-Lemma lines_entries t : tor_ok t -> dflt_le1 t ->
-  (f1c t = false -> lines_of t = entries t) /\
-  (f1c t = true -> lines_of t = [DEFAULTW] /\ entries t = []).
+(* the lines the code works on are the entries Tor reports *)
+Lemma lines_entries t : tor_ok t -> dflt_le1 t -> lines_of t = entries t.
 Proof.
-  intros [_ Hd] Hl. unfold f1c, lines_of, asked_default, reported, entries, dflt_le1 in *.
+  intros (_ & Hd & Hn) Hl. unfold lines_of, asked_default, reported, entries, dflt_le1 in *.
   destruct (sp t) as [|l] eqn:S.
   - change (is_default [tx default_value]) with true. cbn iota.
-    destruct (dflt t) as [|d [|d2 r]]; cbn in *.
-    + split; [discriminate|]. intros _. split; reflexivity.
-    + split; [reflexivity|discriminate].
-    + lia.
-  - rewrite (Hd l eq_refl). split; [reflexivity|discriminate].
+    destruct (dflt t) as [|d [|d2 r]]; [reflexivity| |cbn in Hl; lia].
+    change (tx default_value) with DEFAULTW.
+    assert (d <> DEFAULTW) as Hne by (apply Hn; [reflexivity|now left]). apply beqb_neq in Hne. now rewrite Hne.
+  - now rewrite (Hd l eq_refl).
 Qed.
 
 Lemma parsed_In want ws ep :
@@ -639,16 +618,6 @@ Proof.
     destruct (isnil (parsed want (filter is_tcp (map first_word E)))) eqn:N.
     + apply isnil_true in N. rewrite N in Hin. contradiction.
     + rewrite H in Hin. contradiction.
-Qed.
-
-Lemma cand_default want : candidates want [DEFAULTW] = [].
-Proof.
-  unfold candidates, parsed.
-  change (map first_word [DEFAULTW]) with [DEFAULTW].
-  change (filter is_tcp [DEFAULTW]) with [DEFAULTW].
-  change (filter is_unix [DEFAULTW]) with (@nil bytes).
-  cbn [flat_map]. change (parse_line DEFAULTW) with (@None endpoint).
-  destruct (sel want DEFAULTW); reflexivity.
 Qed.
 
 Lemma queries_facts t :
@@ -713,11 +682,11 @@ Proof.
   destruct (existsb (ep_eqb pick) (c :: cs)) eqn:P; [now apply existsb_ep_In in P|now left].
 Qed.
 
-Lemma choose_ok t o pick : tor_ok t -> dflt_le1 t -> wf_op o = true -> f1c t = false ->
+Lemma choose_ok t o pick : tor_ok t -> dflt_le1 t -> wf_op o = true ->
   step_ok t o (fst (choose t (o_want o) (o_avail o) (o_accept o) pick)) = true.
 Proof.
-  intros Ht Hl Hwf Hf.
-  destruct (lines_entries t Ht Hl) as [HL _]. specialize (HL Hf).
+  intros Ht Hl Hwf.
+  pose proof (lines_entries t Ht Hl) as HL.
   assert (Hok : forall e, In e (entries t) -> okline0 e = true) by apply Ht.
   destruct (queries_facts t) as [Q1 Q2].
   unfold choose. rewrite HL.
@@ -745,31 +714,23 @@ Lemma choose_state t o pick : tor_ok t -> dflt_le1 t -> wf_op o = true ->
 Proof.
   intros Ht Hl Hwf.
   destruct (queries_facts t) as [Q1 Q2].
-  destruct (lines_entries t Ht Hl) as [HL0 HL1].
-  assert (HLok : forall e, In e (lines_of t) -> okline0 e = true).
-  { destruct (f1c t); [destruct (HL1 eq_refl) as [-> _]|rewrite (HL0 eq_refl); apply Ht].
-    intros e [<-|[]]. reflexivity. }
-  assert (HLU : forall ep, In ep (usable_eps None (entries t)) ->
-                           exists e, In e (lines_of t) /\ usable_for None e = Some ep).
-  { destruct (f1c t); [destruct (HL1 eq_refl) as [_ ->]; intros ep []|rewrite (HL0 eq_refl)].
-    intros ep. now rewrite usable_eps_In. }
-  assert (HC : forall ep, In ep (candidates (o_want o) (lines_of t)) -> In ep (usable_eps None (entries t))).
-  { destruct (f1c t); [destruct (HL1 eq_refl) as [-> _]; rewrite cand_default; intros ep []|].
-    rewrite (HL0 eq_refl). intros ep H. apply usable_weaken with (want := o_want o). apply cand_sound; auto. apply Ht. }
-  unfold choose.
-  destruct (candidates (o_want o) (lines_of t)) as [|c cs] eqn:C.
+  pose proof (lines_entries t Ht Hl) as HL.
+  assert (Hok : forall e, In e (entries t) -> okline0 e = true) by apply Ht.
+  unfold choose. rewrite HL.
+  destruct (candidates (o_want o) (entries t)) as [|c cs] eqn:C.
   - destruct (new_facts o Hwf) as (ep & Hp & Ha & Hline & Hfw & Hnd & Hnz).
     change (match o_want o with Some w => w | None => o_avail o end) with (new_line o).
-    set (lines' := filter keep_line (lines_of t) ++ [new_line o]).
+    set (lines' := filter keep_line (entries t) ++ [new_line o]).
     assert (Hnew : In ep (usable_eps None lines')).
     { apply usable_eps_In. exists (new_line o). split; [apply in_or_app; right; now left|]. exact Ha. }
     assert (Hok' : tor_ok {| sp := RVals lines'; dflt := dflt t |}).
-    { split.
+    { split; [|split].
       - unfold entries. cbn [sp]. intros e He. apply in_app_or in He as [He|[<-|[]]]; [|exact Hline].
-        apply filter_In in He as [He _]. now apply HLok.
-      - cbn [sp]. intros l [= <-]. now apply is_default_app. }
+        apply filter_In in He as [He _]. now apply Hok.
+      - cbn [sp]. intros l [= <-]. now apply is_default_app.
+      - cbn [sp]. discriminate. }
     assert (Hmono : forall x, In x (usable_eps None (entries t)) -> In x (usable_eps None lines')).
-    { intros x Hx. destruct (HLU x Hx) as (e & He & Hu). apply usable_eps_In. exists e. split; [|exact Hu].
+    { intros x Hx. apply usable_eps_In in Hx as (e & He & Hu). apply usable_eps_In. exists e. split; [|exact Hu].
       apply in_or_app. left. apply filter_In. split; [exact He|].
       unfold keep_line. apply negb_true_iff, beqb_neq. intros Z.
       unfold usable_for in Hu. change (tx "0") with ZERO in Z. rewrite Z in Hu. discriminate. }
@@ -783,7 +744,8 @@ Proof.
       intros x Hx. discriminate Hx.
   - cbn [fst snd]. unfold next_tor. cbn [sent]. rewrite Q2.
     split; [reflexivity|]. split; [exact Ht|]. split; [reflexivity|]. split; [auto|].
-    intros x Hx. cbn [out] in Hx. injection Hx as <-. apply HC. apply pick_in.
+    intros x Hx. cbn [out] in Hx. injection Hx as <-.
+    apply usable_weaken with (want := o_want o). apply cand_sound; auto. rewrite C. apply pick_in.
 Qed.
 
 (* ------------------------------------------------------------------ one call of a history *)
@@ -795,8 +757,6 @@ Definition inv (cfgmode rej : bool) (st : mstate) : Prop :=
                          forall e, m_cache st = Some e -> In e (usable_eps None (entries (m_tor st)))) /\
      (cfgmode = true -> m_cfg st = entries (m_tor st))).
 
-Definition any (l : list bool) : bool := existsb (fun x => x) l.
-
 Lemma is_prefix_app l x : is_prefix l (l ++ x) = true.
 Proof. induction l as [|a l IH]; cbn; [reflexivity|]. now rewrite beqb_refl. Qed.
 
@@ -806,38 +766,23 @@ Proof.
   intros H. unfold listeners. rewrite H. unfold entries at 1. cbn [sp]. rewrite filter_app. apply is_prefix_app.
 Qed.
 
-Lemma f1_direct t o : is_cfg (o_api o) = false -> f1 t o = f1c t.
-Proof. intros H. unfold f1, f1c. now rewrite H. Qed.
-
-Lemma any_f1 t rej o : f1 t o = true -> any (in_class t rej o) = true.
-Proof. intros H. unfold any, in_class. cbn [existsb]. now rewrite H. Qed.
-Lemma any_f2 t rej o : f2 t o = true -> any (in_class t rej o) = true.
-Proof. intros H. unfold any, in_class. cbn [existsb]. rewrite H. now rewrite !orb_true_r. Qed.
-Lemma any_f3 t rej o : f3 t o = true -> any (in_class t rej o) = true.
-Proof. intros H. unfold any, in_class. cbn [existsb]. rewrite H. now rewrite !orb_true_r. Qed.
-Lemma any_f4 t rej o : f4 rej o = true -> any (in_class t rej o) = true.
-Proof. intros H. unfold any, in_class. cbn [existsb]. rewrite H. now rewrite !orb_true_r. Qed.
-
 Lemma rejected_quiet o r : rejected o {| sent := []; out := r |} = false.
 Proof. unfold rejected. cbn. apply andb_false_r. Qed.
 
 Lemma choose_listeners t o pick : tor_ok t -> dflt_le1 t -> wf_op o = true ->
   is_prefix (listeners t) (listeners (snd (choose t (o_want o) (o_avail o) (o_accept o) pick))) = true.
 Proof.
-  intros Ht Hl Hwf. destruct (lines_entries t Ht Hl) as [HL0 HL1].
-  unfold choose. destruct (candidates (o_want o) (lines_of t)); [|apply is_prefix_refl].
+  intros Ht Hl Hwf. pose proof (lines_entries t Ht Hl) as HL.
+  unfold choose. rewrite HL. destruct (candidates (o_want o) (entries t)); [|apply is_prefix_refl].
   destruct (o_accept o); cbn [snd]; [|apply is_prefix_refl].
-  unfold listeners at 2. unfold entries at 1. cbn [sp].
-  destruct (f1c t).
-  - destruct (HL1 eq_refl) as [_ E]. unfold listeners. now rewrite E.
-  - rewrite (HL0 eq_refl). unfold listeners.
-    apply relisted_prefix with (new := match o_want o with Some w => w | None => o_avail o end).
-    apply relisted_filter.
+  unfold listeners at 2. unfold entries at 1. cbn [sp]. unfold listeners.
+  apply relisted_prefix with (new := match o_want o with Some w => w | None => o_avail o end).
+  apply relisted_filter.
 Qed.
 
 Lemma step_direct st o pick rej : inv false rej st -> wf_op o = true -> is_cfg (o_api o) = false ->
   let r := step st o pick in
-  (step_ok (m_tor st) o (fst r) || any (in_class (m_tor st) rej o)) = true /\
+  step_ok (m_tor st) o (fst r) = true /\
   next_tor (m_tor st) o (fst r) = m_tor (snd r) /\
   inv false (rej || rejected o (fst r)) (snd r) /\
   is_prefix (listeners (m_tor st)) (listeners (m_tor (snd r))) = true.
@@ -849,8 +794,6 @@ Proof.
   pose proof (choose_ok (m_tor st) o pick Ht Hl Hwf) as Hok.
   pose proof (choose_state (m_tor st) o pick Ht Hl Hwf) as Hst. cbv zeta in Hst.
   pose proof (choose_listeners (m_tor st) o pick Ht Hl Hwf) as Hls.
-  assert (Hclass : f1c (m_tor st) = true -> any (in_class (m_tor st) rej o) = true).
-  { intros H. apply any_f1. now rewrite f1_direct. }
   assert (Hinv : forall st', m_tor st' = snd (choose (m_tor st) (o_want o) (o_avail o) (o_accept o) pick) ->
                  (forall e, m_cache st' = Some e -> In e (usable_eps None (entries (m_tor st')))) ->
                  forall rej', inv false rej' st').
@@ -858,28 +801,24 @@ Proof.
     destruct Hst as (_ & Ht' & Hd' & _). split; [exact Ht'|]. split; [|discriminate].
     intros _. split; [unfold dflt_le1; now rewrite Hd'|]. rewrite <- E1. exact E2. }
   unfold step. destruct (o_api o) eqn:A; try discriminate Hapi.
-  - (* ACreate *)
+  - (* _create_socks_endpoint *)
     destruct (choose (m_tor st) (o_want o) (o_avail o) (o_accept o) pick) as [b t'] eqn:Ch.
     cbn [fst snd] in *. destruct Hst as (S1 & S2 & S3 & S4 & S5).
-    split; [|split; [exact S1|split; [|exact Hls]]].
-    + destruct (f1c (m_tor st)) eqn:F; [rewrite Hclass by reflexivity; apply orb_true_r|].
-      now rewrite Hok.
-    + apply Hinv; [reflexivity|]. cbn [m_cache m_tor]. intros e He. apply S4. now apply Hc.
-  - (* ADefault *)
+    split; [exact Hok|split; [exact S1|split; [|exact Hls]]].
+    apply Hinv; [reflexivity|]. cbn [m_cache m_tor]. intros e He. apply S4. now apply Hc.
+  - (* Tor._default_socks_endpoint *)
     rewrite (Hwant eq_refl) in *.
     destruct (m_cache st) as [e|] eqn:Ca.
     + unfold quiet. cbn [fst snd]. split; [|split; [reflexivity|split; [|apply is_prefix_refl]]].
       * unfold step_ok. cbn [sent out forallb filter andb]. rewrite (Hwant eq_refl).
-        apply orb_true_iff. left. apply existsb_ep_In. now apply Hc.
+        apply existsb_ep_In. now apply Hc.
       * rewrite rejected_quiet, orb_false_r. split; [discriminate|]. intros _.
         split; [exact Ht|]. split; [|discriminate]. intros _. split; [exact Hl|]. rewrite Ca. exact Hc.
     + destruct (choose (m_tor st) None (o_avail o) (o_accept o) pick) as [b t'] eqn:Ch.
       cbn [fst snd] in *. destruct Hst as (S1 & S2 & S3 & S4 & S5).
-      split; [|split; [exact S1|split; [|exact Hls]]].
-      * destruct (f1c (m_tor st)) eqn:F; [rewrite Hclass by reflexivity; apply orb_true_r|].
-        now rewrite Hok.
-      * apply Hinv; [reflexivity|]. cbn [m_cache m_tor]. intros e He.
-        destruct (out b) as [x|] eqn:O; [|discriminate]. injection He as <-. now apply S5.
+      split; [exact Hok|split; [exact S1|split; [|exact Hls]]].
+      apply Hinv; [reflexivity|]. cbn [m_cache m_tor]. intros e He.
+      destruct (out b) as [x|] eqn:O; [|discriminate]. injection He as <-. now apply S5.
 Qed.
 
 (* ---- TorConfig accessors ---- *)
@@ -891,12 +830,17 @@ Lemma step_ok_quiet t o r :
     end.
 Proof. reflexivity. Qed.
 
-Lemma no_usable_rest rest : existsb usable rest = false -> usable_eps None rest = [].
+(* _first_usable_socks_endpoint returns the endpoint of the first usable entry *)
+Lemma first_usable_spec E : (forall e, In e E -> okline0 e = true) ->
+  first_usable E = hd_error (usable_eps None E).
 Proof.
-  intros H. apply usable_eps_nil. intros e He. unfold usable_for.
-  destruct (addr_of (first_word e)) eqn:A; [|reflexivity].
-  assert (existsb usable rest = true) as C by (apply existsb_exists; exists e; split; [exact He|unfold usable; now rewrite A]).
-  congruence.
+  induction E as [|l E IH]; intros Hok; [reflexivity|].
+  assert (IH' : first_usable E = hd_error (usable_eps None E)) by (apply IH; intros e He; apply Hok; now right).
+  cbn [first_usable usable_eps]. unfold usable_for. change (tx "0") with ZERO.
+  destruct (beqb (first_word l) ZERO) eqn:Z.
+  - apply beqb_eq in Z. rewrite Z, addr_of_zero. exact IH'.
+  - apply beqb_neq in Z. rewrite (parse_line_spec l (Hok l (or_introl eq_refl)) Z).
+    destruct (addr_of (first_word l)); [reflexivity|exact IH'].
 Qed.
 
 (* sync of Tor's state for the TorConfig calls needs no invariant *)
@@ -905,10 +849,10 @@ Lemma step_sync_cfg st o pick : is_cfg (o_api o) = true ->
 Proof.
   intros Hapi. unfold step, cfg_first, quiet.
   destruct (o_api o); try discriminate Hapi.
-  - destruct (o_want o); [|destruct (m_cfg st); reflexivity].
+  - destruct (o_want o); [|destruct (first_usable (m_cfg st)); reflexivity].
     destruct (m_cfg st); [reflexivity|]. destruct (has_char SP b); [reflexivity|].
     destruct (find _ _); reflexivity.
-  - destruct (o_want o) as [w|]; [|destruct (m_cfg st); reflexivity].
+  - destruct (o_want o) as [w|]; [|destruct (first_usable (m_cfg st)); reflexivity].
     destruct (existsb _ (m_cfg st)); [reflexivity|].
     destruct (o_accept o) eqn:A; cbn [fst snd m_tor].
     + change [setconf_line cfg_key (m_cfg st ++ [w])] with ([] ++ [setconf_line cfg_key (m_cfg st ++ [w])]).
@@ -917,28 +861,16 @@ Proof.
       rewrite next_tor_add, A by reflexivity. reflexivity.
 Qed.
 
-Lemma cfg_first_ok st o rej : tor_ok (m_tor st) -> m_cfg st = entries (m_tor st) ->
+Lemma cfg_first_ok st o : tor_ok (m_tor st) -> m_cfg st = entries (m_tor st) ->
   is_cfg (o_api o) = true -> o_want o = None ->
-  (step_ok (m_tor st) o (fst (cfg_first st)) || any (in_class (m_tor st) rej o)) = true.
+  step_ok (m_tor st) o (fst (cfg_first st)) = true.
 Proof.
-  intros [Hok _] Hcfg Hapi Hw. unfold cfg_first. rewrite Hcfg.
+  intros [Hok _] Hcfg Hapi Hw. unfold cfg_first. rewrite Hcfg, (first_usable_spec _ Hok).
   assert (may_refuse o = true) as Hmr by (unfold may_refuse; rewrite Hw; destruct (o_api o); try discriminate; reflexivity).
-  destruct (entries (m_tor st)) as [|l rest] eqn:E; cbn [fst quiet].
-  - rewrite step_ok_quiet, E, Hw, Hmr. reflexivity.
-  - destruct (prefixb UNIXP l && has_char SP l) eqn:F2.
-    { rewrite any_f2; [apply orb_true_r|]. unfold f2, selected. now rewrite Hapi, Hw, E. }
-    assert (okline0 l = true) as Hl by (apply Hok; now left).
-    destruct (beqb (first_word l) ZERO) eqn:Z.
-    { apply beqb_eq in Z. rewrite any_f3; [apply orb_true_r|].
-      unfold f3. rewrite Hapi, Hw, E. unfold usable. rewrite Z, (disabled_zero l Z). reflexivity. }
-    apply beqb_neq in Z. unfold parse_outcome. rewrite (parse_line_spec l Hl F2 Z).
-    rewrite step_ok_quiet, E, Hw. cbn [usable_eps]. unfold usable_for.
-    destruct (addr_of (first_word l)) as [ep|] eqn:A.
-    + cbn [existsb]. now rewrite ep_eqb_refl.
-    + destruct (existsb usable rest) eqn:R.
-      * rewrite any_f3; [apply orb_true_r|]. unfold f3. rewrite Hapi, Hw, E. unfold usable at 1. rewrite A, R.
-        cbn. apply orb_true_r.
-      * rewrite (no_usable_rest rest R), Hmr. reflexivity.
+  destruct (usable_eps None (entries (m_tor st))) as [|ep U] eqn:E; cbn [hd_error fst quiet];
+    rewrite step_ok_quiet, Hw, E.
+  - now rewrite Hmr.
+  - cbn [existsb]. now rewrite ep_eqb_refl.
 Qed.
 
 Lemma wf_want o w : wf_op o = true -> o_want o = Some w ->
@@ -958,19 +890,19 @@ Qed.
 
 Lemma step_config st o pick : inv true false st -> wf_op o = true -> is_cfg (o_api o) = true ->
   let r := step st o pick in
-  (step_ok (m_tor st) o (fst r) || any (in_class (m_tor st) false o)) = true /\
+  step_ok (m_tor st) o (fst r) = true /\
   inv true (rejected o (fst r)) (snd r) /\
   is_prefix (listeners (m_tor st)) (listeners (m_tor (snd r))) = true.
 Proof.
   intros [_ I] Hwf Hapi. destruct (I eq_refl) as (Ht & _ & Hc). specialize (Hc eq_refl). clear I.
-  pose proof Ht as [Hok Hdef].
+  pose proof Ht as (Hok & Hdef & _).
   pose proof (inv_cfg_same st Ht Hc) as Hsame.
   assert (Hfirst : o_want o = None ->
-     (step_ok (m_tor st) o (fst (cfg_first st)) || any (in_class (m_tor st) false o)) = true /\
+     step_ok (m_tor st) o (fst (cfg_first st)) = true /\
      inv true (rejected o (fst (cfg_first st))) (snd (cfg_first st)) /\
      is_prefix (listeners (m_tor st)) (listeners (m_tor (snd (cfg_first st)))) = true).
   { intros W. split; [now apply cfg_first_ok|].
-    unfold cfg_first. destruct (m_cfg st); cbn [fst snd quiet]; rewrite rejected_quiet;
+    unfold cfg_first. destruct (first_usable (m_cfg st)); cbn [fst snd quiet]; rewrite rejected_quiet;
       (split; [exact Hsame|apply is_prefix_refl]). }
   cbv zeta. unfold step.
   destruct (o_api o) eqn:A; try discriminate Hapi.
@@ -987,12 +919,10 @@ Proof.
     rewrite <- E in *. rewrite Hp3.
     destruct (find (fun l => beqb (first_word l) p) (entries (m_tor st))) as [l|] eqn:Fd;
       (split; [|apply Hq]); cbn [fst quiet].
-    + pose proof Fd as Fd2. apply find_some in Fd2 as [Hin Hfw]. apply beqb_eq in Hfw.
-      destruct (prefixb UNIXP l && has_char SP l) eqn:F2.
-      { rewrite any_f2; [apply orb_true_r|]. unfold f2, selected. now rewrite A, W, Fd. }
+    + apply find_some in Fd as [Hin Hfw]. apply beqb_eq in Hfw.
       assert (first_word l <> ZERO) as Z by now rewrite Hfw.
-      unfold parse_outcome. rewrite (parse_line_spec l (Hok l Hin) F2 Z), Hfw, Pa.
-      rewrite step_ok_quiet, W. apply orb_true_iff. left. apply existsb_ep_In, usable_eps_In.
+      unfold parse_outcome. rewrite (parse_line_spec l (Hok l Hin) Z), Hfw, Pa.
+      rewrite step_ok_quiet, W. apply existsb_ep_In, usable_eps_In.
       exists l. split; [exact Hin|]. unfold usable_for. now rewrite Hfw, beqb_refl.
     + rewrite step_ok_quiet, W, Hmr.
       assert (usable_eps (Some p) (entries (m_tor st)) = []) as ->; [|reflexivity].
@@ -1008,7 +938,7 @@ Proof.
       apply existsb_exists in X as (l & Hin & Hg).
       assert (first_word l = w) as Hfw.
       { apply orb_true_iff in Hg as [Hg|Hg]; apply beqb_eq in Hg; [now subst l|now symmetry]. }
-      unfold parse_outcome. rewrite Pp. rewrite step_ok_quiet, W. apply orb_true_iff. left.
+      unfold parse_outcome. rewrite Pp. rewrite step_ok_quiet, W.
       apply existsb_ep_In, usable_eps_In. exists l. split; [exact Hin|].
       unfold usable_for. rewrite Hfw, beqb_refl. now rewrite Pfw in Pa.
     + assert (HU : usable_eps (o_want o) (entries (m_tor st)) = []).
@@ -1028,15 +958,16 @@ Proof.
         rewrite Hnew. apply relisted_app. }
       destruct (o_accept o) eqn:Ac; cbn [fst snd m_tor].
       * split; [|split].
-        -- rewrite Hstep; [reflexivity|]. exists ep. unfold parse_outcome. rewrite Pp, Hnew. auto.
+        -- apply Hstep. exists ep. unfold parse_outcome. rewrite Pp, Hnew. auto.
         -- assert (rejected o {| sent := [s]; out := parse_outcome w |} = false) as ->
              by (unfold rejected; now rewrite Ac).
-           apply inv_cfg_same; [|reflexivity]. cbn [m_tor]. split.
+           apply inv_cfg_same; [|reflexivity]. cbn [m_tor]. split; [|split].
            ++ unfold entries. cbn [sp]. intros e He. apply in_app_or in He as [He|[<-|[]]]; [now apply Hok|exact Pline].
            ++ cbn [sp]. intros l [= <-]. now apply is_default_app.
+           ++ cbn [sp]. discriminate.
         -- now apply listeners_vals_app.
       * split; [|split].
-        -- rewrite Hstep; [reflexivity|]. now exists K_Runtime.
+        -- apply Hstep. now exists K_Runtime.
         -- assert (rejected o {| sent := [s]; out := OErr K_Runtime |} = true) as ->.
            { unfold rejected. rewrite Ac. cbn [sent existsb negb andb]. subst s. now rewrite setconf_line_is. }
            split; [|discriminate]. intros _. exists [w]. reflexivity.
@@ -1053,11 +984,11 @@ Proof.
   assert (Hsame : inv true true st) by (split; [intros _; now exists x|discriminate]).
   unfold step, cfg_first, quiet.
   destruct (o_api o); try discriminate Hapi.
-  - destruct (o_want o); [|destruct (m_cfg st); cbn [snd]; split; auto using is_prefix_refl].
+  - destruct (o_want o); [|destruct (first_usable (m_cfg st)); cbn [snd]; split; auto using is_prefix_refl].
     destruct (m_cfg st) eqn:M; [cbn [snd]; split; auto using is_prefix_refl|].
     destruct (has_char SP b); [cbn [snd]; split; auto using is_prefix_refl|].
     destruct (find _ _); cbn [snd]; split; auto using is_prefix_refl.
-  - destruct (o_want o) as [w|]; [|destruct (m_cfg st); cbn [snd]; split; auto using is_prefix_refl].
+  - destruct (o_want o) as [w|]; [|destruct (first_usable (m_cfg st)); cbn [snd]; split; auto using is_prefix_refl].
     destruct (existsb _ (m_cfg st)); [cbn [snd]; split; auto using is_prefix_refl|].
     destruct (o_accept o); cbn [snd m_tor m_cfg].
     + split.
@@ -1067,7 +998,6 @@ Proof.
       now rewrite Hx, <- app_assoc.
 Qed.
 
-(* ------------------------------------------------------------------ whole histories *)
 Definition mode_ok (cfgmode : bool) (ops : list op) : bool :=
   forallb (fun o => Bool.eqb (is_cfg (o_api o)) cfgmode) ops.
 
@@ -1083,12 +1013,12 @@ Proof.
     apply andb_true_iff in Hm as [Hm Hms]. apply eqb_prop in Hm.
     cbn [run_from end_state].
     destruct (step st o (hd no_pick picks)) as [b st'] eqn:S. cbn [snd].
-    cbn [oracle_known final_tor]. fold (any (in_class (m_tor st) rej o)).
+    cbn [oracle_known final_tor].
     assert (Hgoal : forall rej',
-      (step_ok (m_tor st) o b || any (in_class (m_tor st) rej o)) = true ->
+      (step_ok (m_tor st) o b || f4 rej o) = true ->
       next_tor (m_tor st) o b = m_tor st' -> inv cfgmode rej' st' -> rej' = (rej || rejected o b) ->
       is_prefix (listeners (m_tor st)) (listeners (m_tor st')) = true ->
-      (step_ok (m_tor st) o b || any (in_class (m_tor st) rej o))
+      (step_ok (m_tor st) o b || f4 rej o)
         && oracle_known (next_tor (m_tor st) o b) (rej || rejected o b) ops (run_from st' ops (tl picks)) = true /\
       is_prefix (listeners (m_tor st)) (listeners (m_tor (end_state st' ops (tl picks)))) = true /\
       final_tor (next_tor (m_tor st) o b) ops (run_from st' ops (tl picks)) = m_tor (end_state st' ops (tl picks))).
@@ -1102,14 +1032,14 @@ Proof.
         pose proof (step_config_rej st o (hd no_pick picks) I Hm) as [R1 R2]. rewrite S in R1, R2. cbn [snd] in *.
         pose proof (step_sync_cfg st o (hd no_pick picks) Hm) as Sy. rewrite S in Sy. cbn [fst snd] in Sy.
         apply (Hgoal true); auto.
-        rewrite (any_f4 (m_tor st) true o); [apply orb_true_r|]. unfold f4. now rewrite Hm.
+        unfold f4. rewrite Hm. apply orb_true_r.
       * pose proof (step_config st o (hd no_pick picks) I Hwf Hm) as C. cbv zeta in C. rewrite S in C.
         cbn [fst snd] in C. destruct C as (C1 & C2 & C3).
         pose proof (step_sync_cfg st o (hd no_pick picks) Hm) as Sy. rewrite S in Sy. cbn [fst snd] in Sy.
-        apply (Hgoal (rejected o b)); auto.
+        apply (Hgoal (rejected o b)); auto. now rewrite C1.
     + pose proof (step_direct st o (hd no_pick picks) rej I Hwf Hm) as D. cbv zeta in D. rewrite S in D.
       cbn [fst snd] in D. destruct D as (D1 & D2 & D3 & D4).
-      apply (Hgoal (rej || rejected o b)); auto.
+      apply (Hgoal (rej || rejected o b)); auto. now rewrite D1.
 Qed.
 
 Lemma okline_parts l : okline l = true -> okline0 l = true /\ l <> DEFAULTW.
@@ -1127,7 +1057,7 @@ Qed.
 
 Lemma boot_entries t : tor_ok t -> boot t = entries t.
 Proof.
-  intros [_ Hd]. unfold boot, asked_default, reported, entries.
+  intros (_ & Hd & _). unfold boot, asked_default, reported, entries.
   destruct (sp t) as [|l]; [reflexivity|]. now rewrite (Hd l eq_refl).
 Qed.
 
@@ -1137,12 +1067,13 @@ Proof.
   unfold wf_hist. intros H. apply andb_true_iff in H as [H Hmode].
   apply andb_true_iff in H as [H Hops]. apply andb_true_iff in H as [Hsp Hd].
   assert (Ht : tor_ok t).
-  { split.
+  { split; [|split].
     - unfold entries. intros e He. destruct (sp t) as [|l].
       + apply okline_parts. rewrite forallb_forall in Hd. now apply Hd.
       + apply okline_parts. rewrite forallb_forall in Hsp. now apply Hsp.
     - intros l E. rewrite E in Hsp. apply not_default. intros e He.
-      rewrite forallb_forall in Hsp. now apply okline_parts, Hsp. }
+      rewrite forallb_forall in Hsp. now apply okline_parts, Hsp.
+    - intros _ d Hin. rewrite forallb_forall in Hd. now apply okline_parts, Hd. }
   apply orb_true_iff in Hmode as [Hm|Hm]; apply andb_true_iff in Hm as [Hm1 Hm2].
   - exists false. split; [|split; [exact Hops|]].
     + split; [discriminate|]. intros _. split; [exact Ht|]. split; [|discriminate].
@@ -1156,7 +1087,7 @@ Proof.
 Qed.
 
 (* every call of every history in the envelope satisfies the oracle's clauses or lies in the
-   input class of one of the four known findings *)
+   input class of the one open finding (a TorConfig call after a refused SETCONF) *)
 Theorem run_known t ops picks : wf_hist t ops = true ->
   oracle_known t false ops (run t ops picks) = true.
 Proof.
@@ -1208,7 +1139,7 @@ Proof.
   intros [Hok _]. unfold listeners. apply filter_ext_in. intros e He. now apply keep_is_listener, Hok.
 Qed.
 
-Theorem create_cases t o pick : tor_ok t -> dflt_le1 t -> wf_op o = true -> f1c t = false ->
+Theorem create_cases t o pick : tor_ok t -> dflt_le1 t -> wf_op o = true ->
   let r := choose t (o_want o) (o_avail o) (o_accept o) pick in
   (exists e, sent (fst r) = queries t /\ out (fst r) = OEp e
              /\ In e (usable_eps (o_want o) (entries t)) /\ snd r = t)
@@ -1221,8 +1152,8 @@ Theorem create_cases t o pick : tor_ok t -> dflt_le1 t -> wf_op o = true -> f1c 
                   /\ snd r = {| sp := RVals (listeners t ++ [new_line o]); dflt := dflt t |}) /\
      (o_accept o = false -> (exists n, out (fst r) = OErr n) /\ snd r = t)).
 Proof.
-  intros Ht Hl Hwf Hf. cbv zeta.
-  destruct (lines_entries t Ht Hl) as [HL _]. specialize (HL Hf).
+  intros Ht Hl Hwf. cbv zeta.
+  pose proof (lines_entries t Ht Hl) as HL.
   assert (Hok : forall e, In e (entries t) -> okline0 e = true) by apply Ht.
   unfold choose. rewrite HL.
   destruct (candidates (o_want o) (entries t)) as [|c cs] eqn:C.
@@ -1240,31 +1171,44 @@ Proof.
     split; [|reflexivity]. apply cand_sound; auto. rewrite C. apply pick_in.
 Qed.
 
-(* ------------------------------------------------------------------ witnesses of the open findings *)
+(* TorConfig.socks_endpoint() / create_socks_endpoint(None): the first usable entry, or a refusal
+   when there is none; nothing is written either way *)
+Theorem cfg_first_spec st : (forall e, In e (m_cfg st) -> okline0 e = true) ->
+  fst (cfg_first st) = {| sent := [];
+                          out := match usable_eps None (m_cfg st) with
+                                 | ep :: _ => OEp ep
+                                 | [] => OErr K_Runtime
+                                 end |}
+  /\ snd (cfg_first st) = st.
+Proof.
+  intros Hok. unfold cfg_first. rewrite (first_usable_spec _ Hok).
+  destruct (usable_eps None (m_cfg st)); split; reflexivity.
+Qed.
+
+(* ------------------------------------------------------------------ witness of the open finding *)
 Definition mkop (a : api) (w : option bytes) (acc : bool) : op :=
   {| o_api := a; o_want := w; o_avail := tx "9999"; o_accept := acc |}.
 
-Definition w_f1_tor : tor := {| sp := RDefault; dflt := [] |}.
-Definition w_f1_ops : list op := [mkop ACreate None true].
-Definition w_f2_tor : tor := {| sp := RVals [tx "unix:/run/tor/socks WorldWritable"]; dflt := [] |}.
-Definition w_f2_ops : list op := [mkop ACfgEndpoint None true].
-Definition w_f3_tor : tor := {| sp := RVals [tx "0"]; dflt := [] |}.
-Definition w_f3b_tor : tor := {| sp := RVals [tx "auto"; tx "9050"]; dflt := [] |}.
-Definition w_f3_ops : list op := [mkop ACfgEndpoint None true].
 Definition w_f4_tor : tor := {| sp := RVals [tx "9050"]; dflt := [] |}.
 Definition w_f4_ops : list op := [mkop ACfgCreate (Some (tx "7000")) false; mkop ACfgCreate (Some (tx "7000")) true].
 
-Definition refutes (t : tor) (ops : list op) (k : nat) : Prop :=
-  wf_hist t ops = true /\ oracle_hist t ops (run t ops []) = false
-  /\ nth k (flags t false ops (run t ops [])) false = true.
+Definition refutes (t : tor) (ops : list op) : Prop :=
+  wf_hist t ops = true /\ oracle_hist t ops (run t ops []) = false /\ flagged t ops (run t ops []) = true.
 
-Lemma f1_refuted : refutes w_f1_tor w_f1_ops 0.
+Lemma f4_refuted : refutes w_f4_tor w_f4_ops.
 Proof. repeat split; vm_compute; reflexivity. Qed.
-Lemma f2_refuted : refutes w_f2_tor w_f2_ops 1.
-Proof. repeat split; vm_compute; reflexivity. Qed.
-Lemma f3_refuted : refutes w_f3_tor w_f3_ops 2 /\ refutes w_f3b_tor w_f3_ops 2.
-Proof. repeat split; vm_compute; reflexivity. Qed.
-Lemma f4_refuted : refutes w_f4_tor w_f4_ops 3.
+
+(* the inputs on which the three repaired defects showed: the oracle now holds on them *)
+Definition w_f1_tor : tor := {| sp := RDefault; dflt := [] |}.
+Definition w_f2_tor : tor := {| sp := RVals [tx "unix:/run/tor/socks WorldWritable"]; dflt := [] |}.
+Definition w_f3_tor : tor := {| sp := RVals [tx "0"]; dflt := [] |}.
+Definition w_f3b_tor : tor := {| sp := RVals [tx "auto"; tx "9050"]; dflt := [] |}.
+
+Lemma repaired_witnesses :
+  oracle_hist w_f1_tor [mkop ACreate None true] (run w_f1_tor [mkop ACreate None true] []) = true /\
+  oracle_hist w_f2_tor [mkop ACfgEndpoint None true] (run w_f2_tor [mkop ACfgEndpoint None true] []) = true /\
+  oracle_hist w_f3_tor [mkop ACfgEndpoint None true] (run w_f3_tor [mkop ACfgEndpoint None true] []) = true /\
+  oracle_hist w_f3b_tor [mkop ACfgCreate None true] (run w_f3b_tor [mkop ACfgCreate None true] []) = true.
 Proof. repeat split; vm_compute; reflexivity. Qed.
 
 (* ------------------------------------------------------------------ client endpoint without a SOCKS endpoint *)
